@@ -48,6 +48,8 @@ pub struct BEntry {
     pub quick: bool,
     pub attack: Option<BAttack>,
     pub seed_moves: bool,
+    /// operands excluded from the catalogue run (they are the subject of a dedicated probe)
+    pub filter: Option<fn(&BIn) -> bool>,
 }
 
 pub fn big_classes(w: u32) -> Vec<BigUint> {
@@ -70,7 +72,7 @@ pub fn big_classes(w: u32) -> Vec<BigUint> {
     v
 }
 
-pub fn gen_inputs(e: &BEntry, idx: usize, n_boundary: usize, n_random: usize, rng: &mut ChaCha8Rng) -> Vec<BIn> {
+pub fn gen_inputs(e: &BEntry, idx: usize, n_boundary: usize, n_random: usize, max_specials: usize, rng: &mut ChaCha8Rng) -> Vec<BIn> {
     use rand::Rng;
     let mut out = vec![];
     for j in 0..n_boundary {
@@ -101,7 +103,10 @@ pub fn gen_inputs(e: &BEntry, idx: usize, n_boundary: usize, n_random: usize, rn
             bytes: (0..e.nbytes).map(|_| rng.gen()).collect(),
         });
     }
-    out.extend(e.specials.iter().cloned());
+    out.extend(e.specials.iter().take(max_specials).cloned());
+    if let Some(f) = e.filter {
+        out.retain(f);
+    }
     out
 }
 
@@ -115,6 +120,7 @@ fn entry(name: &str, bb: BB, widths: Vec<u32>, quick: bool) -> BEntry {
         quick,
         attack: None,
         seed_moves: false,
+        filter: None,
     }
 }
 
@@ -230,6 +236,10 @@ pub fn big_catalogue(thorough: bool) -> Vec<BEntry> {
             p.out(z);
             let full = (&one << w as usize) - &one;
             let mut e = entry(&format!("mod_exp[{w},n={n}]"), p, vec![w, w], quick && n <= 3);
+            if n <= 1 {
+                // n = 0 / n = 1 skip the reduction (probe P4 in c05.rs): keep x < m, m > 1 here
+                e.filter = Some(|i: &BIn| i.big[1] > BigUint::one() && i.big[0] < i.big[1]);
+            }
             e.specials = vec![
                 big2(&b(3), &b(7)),
                 big2(&full, &b(7)),
